@@ -115,3 +115,28 @@ Theorem C02_parentheses_only_group : forall (P: Type) f (s s1 s': pstate P) k r,
   exists x s2 s3 y, advance P s1 = Ok (x, s2) /\ p_expression P f s2 = Ok (r, s3) /\ expect P K_RPAREN s3 = Ok (y, s').
 Proof. exact parentheses_only_group. Qed.
 Print Assumptions C02_parentheses_only_group.
+
+(* prefix operators, casts and sizeof bind tighter than any binary operator (their operand is a cast- or
+   unary-expression: a binary operator can only enter through parentheses), postfix operators tighter still
+   and left to right - on the whole-parser model, every token stream, state and fuel *)
+From PV Require Import PostLib UnaryShape.
+Theorem C02_unary_operand : forall (P: Type) f,
+  post P (fun r =>
+      (exists op e ec, (cast_here P f e \/ unary_here P f e) /\ r = mkN P C_UnaryOp [VStr op; e] ec)
+   \/ (exists op typ c, came_from P (p_type_name P f) typ /\ r = mkN P C_UnaryOp [VStr op; typ] c)
+   \/ (exists op typ c, r = mkN P C_UnaryOp [VStr op; typ] c /\ exists x, came_from P (try_paren_type_name P f) (Some x) /\ fst (fst x) = typ)
+   \/ came_from P (p_postfix_expression P f) r)
+  (p_unary_expression P (S f)).
+Proof. exact unary_operand. Qed.
+Print Assumptions C02_unary_operand.
+
+Theorem C02_cast_operand : forall (P: Type) f,
+  post P (fun r => (exists typ e c, cast_here P f e /\ r = mkN P C_Cast [typ; e] c) \/ unary_here P f r)
+       (p_cast_expression P (S f)).
+Proof. exact cast_operand. Qed.
+Print Assumptions C02_cast_operand.
+
+Theorem C02_postfix_left_to_right : forall (P: Type) f e,
+  post P (fun r => exists sufs, r = fold_left (app_sfx P) sufs e) (p_postfix_suffixes P f e).
+Proof. exact postfix_left_to_right. Qed.
+Print Assumptions C02_postfix_left_to_right.
